@@ -7,6 +7,8 @@ import numpy as np
 
 from mc import alphabets as A
 from mc.refmodel import search as R
+from mc.harness import kind as kind_
+from mc import harness as _H
 
 PROPERTY = "C10"
 RULE = ("every strictly increasing array over {0..7} and over {-3..4} (bounded length) x every non-decreasing query multiset over the "
@@ -75,6 +77,8 @@ def check_search_case(case):
 
 
 def replay(case):
+    if case.get("kind") == "search-sequence":
+        return check_search_sequence(case)
     return check_search_case(case)
 
 
@@ -195,12 +199,52 @@ def make_float_body(arrays, maxq):
     return body
 
 
+@kind_("search-sequence")
+def check_search_sequence(case):
+    """the searches are functions of the array CONTENT at call time: search, edit the same ndarray
+    object in place (still strictly increasing), search again"""
+    S = _impl()
+    fails = []
+    x = np.array(case["x"], dtype=float)
+    q = np.array(case["q"], dtype=float)
+    for step, (pos, val) in enumerate([(None, None)] + [tuple(e) for e in case["edits"]]):
+        if pos is not None:
+            x[pos] = val
+        xf = [float(v) for v in x]
+        for fn in ("lower", "higher", "closest"):
+            got = [int(g) for g in _fast(S, fn, x, q, True)]
+            exp = _expected(fn, xf, [float(v) for v in q], True)
+            if got != exp:
+                fails.append({"clause": "index-after-in-place-edit", "detail": {"step": step, "fn": fn, "x": xf, "expected": exp, "observed": got},
+                              "key": {"fn": fn, "sequence": True}})
+                return fails
+    return fails
+
+
 def harnesses(tier, seed):
     quick = tier == "quick"
     arrays = A.inc_arrays(7, 1, 5 if quick else 6)
     lat = A.half_lattice(-1, 8)
     queries = A.multisets(lat, 1, 3 if quick else 4)
-    hs = [{"name": "lattice", "body": make_lattice_body(arrays, queries),
+    def seq_body(ctx):
+        x = ctx.choose([a for a in A.inc_arrays(9, 3, 5) if all(b - a_ >= 2 for a_, b in zip(a[:-1], a[1:]))], "x")
+        pos = ctx.choose(list(range(1, len(x) - 1)), "edit-position")
+        d1 = ctx.choose([-1.0, 0.5, 1.0], "first-edit")
+        d2 = ctx.choose([-0.5, 1.0], "second-edit")
+        xs = [float(v) for v in x]
+        e1 = xs[pos] + d1
+        e2 = min(max(e1 + d2, xs[pos - 1] + 0.25), xs[pos + 1] - 0.25)
+        case = {"kind": "search-sequence", "x": xs, "q": [v for v in [xs[0] - 1, xs[pos] - 0.75, xs[pos], xs[pos] + 0.75, xs[-1] + 1]],
+                "edits": [[pos, e1], [pos, e2]]}
+        case["q"] = sorted(case["q"])
+        fails = check_search_sequence(case)
+        ctx.call(9)
+        for f in fails:
+            ctx.fail(f["clause"], case, f["detail"], f["key"])
+        ctx.outcome(("seq", tuple(xs), pos, d1, d2))
+
+    hs = [{"name": "same-array-edited-in-place", "body": seq_body},
+          {"name": "lattice", "body": make_lattice_body(arrays, queries),
            "bound_text": "arrays<=%d over {0..7}, multisets<=%d over half-lattice" % (5 if quick else 6, 3 if quick else 4)}]
     # extension slice (quick: one of 2 array families selected by seed; thorough: both)
     fam = [A.inc_arrays(5, 1, 4), [tuple(2 * v + 1 for v in a) for a in A.inc_arrays(4, 2, 4)]]
